@@ -295,7 +295,7 @@ func vc11Conc(f []string) string {
 		done chan struct{}
 	}
 	hs := map[string]*handler{}
-	start := func(id string, sid int, gated bool) *handler {
+	start := func(id string, sid int, gated, mutation bool) *handler {
 		gs := &vc11GateSess{IPoESession: &models.IPoESession{SessionID: vc11Name(sid, "s"), SRGName: "srg1",
 			State: models.SessionStateActive, MAC: net.HardwareAddr{2, 0, 0, 0, 0, byte(sid)}},
 			reached: make(chan struct{}), release: make(chan struct{})}
@@ -306,6 +306,11 @@ func vc11Conc(f []string) string {
 		go func() {
 			defer close(h.done)
 			defer func() { recover() }()
+			if mutation {
+				ss.HandleMutationResult(events.Event{Data: &events.SubscriberMutationResultEvent{
+					SessionID: gs.IPoESession.SessionID, Ok: true, Session: gs}})
+				return
+			}
 			ss.HandleEvent(events.Event{Data: &events.SessionLifecycleEvent{SessionID: gs.IPoESession.SessionID,
 				State: models.SessionStateActive, Session: gs}})
 		}()
@@ -333,14 +338,16 @@ func vc11Conc(f []string) string {
 		t := strings.Split(o, ":")
 		switch t[0] {
 		case "H":
-			hs[t[1]] = start(t[1], vc11Int(t[2]), true)
+			hs[t[1]] = start(t[1], vc11Int(t[2]), true, false)
+		case "G": // like H, through HandleMutationResult
+			hs[t[1]] = start(t[1], vc11Int(t[2]), true, true)
 		case "F":
 			if h := hs[t[1]]; h != nil {
 				finish(h)
 				delete(hs, t[1])
 			}
 		case "E":
-			finish(start("", vc11Int(t[1]), false))
+			finish(start("", vc11Int(t[1]), false, false))
 		case "A": // role transition: Manager.driveSync -> SetActive
 			ss.SetActive(t[1] == "1")
 		}
@@ -733,6 +740,32 @@ func vc11Hist(f []string) string {
 			}
 		}
 	}
+	fireMutation := func(s *vc11Sess, ok bool) {
+		guard(func() {
+			ss.HandleMutationResult(events.Event{Data: &events.SubscriberMutationResultEvent{SessionID: vc11Name(s.sid, "s"),
+				Ok: ok, Session: s.build()}})
+		})
+		emitted := false
+	drainM:
+		for {
+			select {
+			case q := <-ss.sendCh:
+				sent[vc11SrgIdx(q.SrgName)] = append(sent[vc11SrgIdx(q.SrgName)], q)
+				emitted = true
+			default:
+				break drainM
+			}
+		}
+		if emitted { // replicated as an update: the session is live on the active node
+			k := fmt.Sprintf("%d/%d", vc11KindNs(s.kind), s.sid)
+			if _, had := live[k]; !had {
+				liveOrder = append(liveOrder, k)
+			}
+			c := *s
+			c.rel = false
+			live[k] = &c
+		}
+	}
 	bulk := func(g int, churn func()) {
 		guard(func() {
 			b := ss.GetBacklog(vc11SrgName(g))
@@ -772,6 +805,8 @@ func vc11Hist(f []string) string {
 		switch t[0] {
 		case "E":
 			fire(vc11ParseSess(o))
+		case "M": // M:<ok>:<event fields>: result of a subscriber mutation (HandleMutationResult)
+			fireMutation(vc11ParseSess("E:"+strings.Join(t[2:], ":")), t[1] == "1")
 		case "D", "DF":
 			store.failNext = t[0] == "DF"
 			g := vc11Int(t[1])
